@@ -31,7 +31,9 @@ REQUIRED_THEOREMS = ['combinations_mem', 'subsets_spec', 'subsets_each_once', 's
                      'keys_iff_member', 'members_hold_generators_key', 'non_member_holds_nothing',
                      'coalition_lacks_key', 'client_message_time_independent', 'prfs_subsets', 'no_prss_no_keys',
                      'tableOK_sound', 'extracted_tables_ok', 'extracted_runs_match_model',
-                     'extracted_configs_cover']
+                     'extracted_configs_cover',
+                     # the threshold setter on a connected runtime (repo fix b17a618)
+                     'setter_after_setup_drops_peer_keys', 'setter_after_setup_owner_holds_key', 'prfsE_stale', 'prfsE_fresh']
 RULE = ('configuration = (m, t) with 2t < m, m <= 5 plus sampled m in {6,7} (quick) / all m <= 7 (thorough), PRSS on/off; '
         'case = one complete simulated set-up under a seeded scheduler (modes random/fifo/starve/lazynet/eagernet, chunking '
         'mixed/bytes/whole): connection order and chunk boundaries differ per seed; distinct = distinct (m,t,prss,handshake '
@@ -494,10 +496,68 @@ def flush_batch(ctx):
         pos += len(reqs)
 
 
+def setter_case(m, t, t_new, no_prss, seed):
+    """mpc.threshold = t_new at every party AFTER the set-up: what is left in the key stores, and does PRSS refuse?"""
+    async def prog(mpc):
+        before = sorted(tuple(k) for k in getattr(mpc, '_prss_keys', {}))
+        mpc.threshold = t_new
+        after = sorted(tuple(k) for k in getattr(mpc, '_prss_keys', {}))
+        try:
+            mpc.prfs(1 << 12)
+            refused = False
+        except RuntimeError:
+            refused = True
+        except AttributeError:          # without PRSS there are no keys at all
+            refused = None
+        x = mpc.input(mpc.SecInt(16)(mpc.pid + 1))          # operations that do not use PRSS keep working
+        return before, after, refused, int(await mpc.output(mpc.sum(x)))
+    res = SimNet(m, t, no_prss=no_prss, seed=seed, sched=Scheduler(seed, 'random')).run(prog)
+    for i, (before, after, refused, total) in enumerate(res):
+        want_before = sorted(s_ for s_ in itertools.combinations(range(m), m - t) if i in s_)
+        want_after = sorted(s_ for s_ in itertools.combinations(range(m), m - t_new) if s_[0] == i)
+        if no_prss:
+            if before or after:
+                return f'party {i} holds PRSS keys although PRSS is off'
+            continue
+        if before != want_before:
+            return f'party {i}: key subsets after the set-up {before}, expected {want_before}'
+        if after != want_after:
+            return (f'party {i}: key subsets after assigning mpc.threshold = {t_new}: {after}; the setter generates the keys of the '
+                    f'subsets whose lowest member it is: {want_after} (model initStores, theorem setter_after_setup_drops_peer_keys)')
+        complete = all(s_[0] == i for s_ in itertools.combinations(range(m), m - t_new) if i in s_)
+        if m > 1 and not refused:
+            return (f'party {i}: after mpc.threshold = {t_new} on a connected runtime the members of a subset no longer hold the same '
+                    f'key (party {i} holds {len(after)} of {len([1 for s_ in itertools.combinations(range(m), m - t_new) if i in s_])} '
+                    f'keys{", all its own" if complete else ""}; the other members hold different or no keys) and prfs() still hands '
+                    f'out PRFs: PRSS results differ per party')
+        if total != m * (m + 1) // 2:
+            return f'party {i}: sum of the inputs after the assignment = {total}'
+    return None
+
+
+def setter_after_setup(ctx):
+    rng = ctx.subrng('setter')
+    for (m, t) in [(3, 1), (2, 0), (4, 1), (5, 2)] + ([(5, 1), (6, 2), (7, 3)] if ctx.thorough else []):
+        for t_new in sorted({t, 0, (m - 1) // 2}):
+            for no_prss in (False, True):
+                seed = rng.randrange(1 << 30)
+                rep = {'kind': 'setter', 'm': m, 't': t, 't_new': t_new, 'no_prss': no_prss, 'seed': seed}
+                try:
+                    msg = setter_case(m, t, t_new, no_prss, seed)
+                except (PartyError, Deadlock) as exc:
+                    msg = f'run does not complete: {str(exc)[:300]}'
+                ctx.case(('setter', m, t, t_new, no_prss), nontrivial=m > 1 and not no_prss)
+                ctx.count('setter-after-setup')
+                if msg:
+                    ctx.violation('C16: ' + msg, rep)
+                    return
+
+
 def run(ctx):
     del BATCH[:]
     unit_correspondence(ctx)
     single_cut_sweep(ctx)
+    setter_after_setup(ctx)
     rng = ctx.subrng('run')
     cases = make_cases(ctx, rng, 5, ctx.scale(6, 20))
     if ctx.thorough:
@@ -517,6 +577,12 @@ def search(ctx):
 
 
 def replay(ctx, data):
+    if data.get('kind') == 'setter':
+        try:
+            msg = setter_case(data['m'], data['t'], data['t_new'], data['no_prss'], data['seed'])
+        except (PartyError, Deadlock) as exc:
+            msg = f'run does not complete: {str(exc)[:300]}'
+        return msg is None, msg or 'ok: stale keys refused, operations without PRSS work'
     if data.get('kind') != 'setup':
         return True, 'not a set-up replay (nothing to execute)'
     r = run_setup(data['m'], data['t'], data['seed'], data.get('mode', 'random'), data.get('chunk_mode', 'mixed'),
